@@ -718,7 +718,9 @@ pub fn run(ctx: &Ctx) -> Report {
                     // may be what is slow; re-evaluate under a watchdog and drop the input if the oracle cannot decide)
                     let t2 = text.clone();
                     let (tx, rx) = std::sync::mpsc::channel();
-                    std::thread::spawn(move || {
+                    // (a generous stack: syn's recursive-descent parser needs far more than a thread's default 2 MB on the
+                    // deeply nested inputs the fuzzer likes — a snapshot run aborted with a stack overflow here)
+                    let _ = std::thread::Builder::new().stack_size(1 << 30).spawn(move || {
                         let _ = tx.send(check_text(&t2));
                     });
                     let verdict = match rx.recv_timeout(std::time::Duration::from_secs(60)) {
